@@ -242,6 +242,10 @@ impl Property for C09 {
             }
         } else {
             if cfg.otaa {
+                if r.chance(1, 3) {
+                    // the application (or an earlier session) left a non-default data rate in force at join time
+                    ops.push(Op::SetDr(if r.chance(1, 2) { *ups.last().unwrap() } else { *r.pick(&ups) }));
+                }
                 let failed = if r.chance(1, 3) { r.range(1, 12) } else { 0 };
                 for _ in 0..failed {
                     ops.push(Op::Join(Txn::default()));
